@@ -815,11 +815,19 @@ def classify(case, items, kind, root=None, unmatched=None):
         upstream = list(tr)
     # kind "matching": the offending values are the returned values matched to no true root (`unmatched`); only the calls
     # that can have influenced one of THEM count (not an Exhausted call anywhere in the run)
+    # A value that coincides (1e-6) with an unmatched one is its duplicate: which of the two the greedy matching left over is
+    # arbitrary (two polishing calls ending on the same root), so both count as offending.
     if root is None and kind == "matching" and unmatched:
+        outs = [complex(bits_f64(x), bits_f64(y)) for x, y in bits]
+        off = set(unmatched)
+        for u in unmatched:
+            for k in range(len(outs)):
+                if abs(outs[k] - outs[u]) <= 1e-6 * max(1.0, abs(outs[u])): off.add(k)
+        off = sorted(k for k in off if k < n)
         if n >= 4:
-            upstream = list(tr[:n - min(unmatched)]) + ([polish[k] for k in unmatched if k < len(polish)] if refine else [])
+            upstream = list(tr[:n - min(off)]) + ([polish[k] for k in off if k < len(polish)] if refine else [])
         else:
-            upstream = [polish[k] for k in unmatched if k < len(polish)] if refine else []
+            upstream = [polish[k] for k in off if k < len(polish)] if refine else []
     if any(t[0] == 2 and t[2] == 1 for t in upstream):
         return "KF-C10-A"
     # KF-C10-E: the convergence test |p(x)| <= err of a call that produced the offending root passed with err = inf
